@@ -392,13 +392,13 @@ func check(id, tier, repo, verif, onlyKey string) int {
 			"distinct_nontrivial": len(nontrivial),
 			"rule": "one obligation = property/rule/construct (function + semantic subject), evaluated on every path and calling context of the SSA program; " +
 				"non-trivial = discharged with a non-empty witness from at least one matched site; floors fail the check if a table row matches nothing",
-			"samples":      samples,
-			"checker_cmd":  "/verif/check.sh " + id + " " + tier,
-			"trusted_base": []string{"go/types", "golang.org/x/tools/go/ssa v0.29.0", "std-function model table", "reasoned exception tables in tool/internal/props"},
-			"analysed":     stats,
+			"samples":        samples,
+			"checker_cmd":    "/verif/check.sh " + id + " " + tier,
+			"trusted_base":   []string{"go/types", "golang.org/x/tools/go/ssa v0.29.0", "std-function model table", "reasoned exception tables in tool/internal/props"},
+			"analysed":       stats,
 			"floor_failures": floorFails,
 			"harness":        harness,
-			"exhaustive":   false,
+			"exhaustive":     false,
 		},
 	}
 	b, _ := json.MarshalIndent(ev, "", " ")
@@ -478,11 +478,11 @@ func dump(repo string, verbose bool) {
 }
 
 type harnessSummary struct {
-	Generated, Evaluated, Compiled     int
-	SensTotal, SensFlagged             int
-	InvTotal, InvStable                int
-	Survivors, InvGaps                 []string
-	ByOp                               map[string][2]int
+	Generated, Evaluated, Compiled int
+	SensTotal, SensFlagged         int
+	InvTotal, InvStable            int
+	Survivors, InvGaps             []string
+	ByOp                           map[string][2]int
 }
 
 func summarise(prop string, res []variantResult, gen int) harnessSummary {
